@@ -19,10 +19,12 @@ import (
 )
 
 const (
-	protocolOfflineID                  = "cmp/presign-offline"
-	protocolOnlineID                   = "cmp/presign-online"
-	protocolFullID                     = "cmp/presign-full"
-	protocolOfflineRounds round.Number = 7
+	protocolOfflineID = "cmp/presign-offline"
+	protocolOnlineID  = "cmp/presign-online"
+	protocolFullID    = "cmp/presign-full"
+	// the abort round that identifies a wrong chi share has number 8 in every variant:
+	// its messages must be inside the handler's round window in the offline variant too
+	protocolOfflineRounds round.Number = 8
 	protocolFullRounds    round.Number = 8
 )
 
